@@ -1328,3 +1328,36 @@ def one_run_spans_several_transactions(case, outcome, atoms):
         return atoms
     return [a for a in atoms if a[0] not in ('state_changed_by_failed_run', 'retry_failed',
                                              'retry_differs_from_uninterrupted')]
+
+
+# ---------------------------------------------------------------------------
+# C12
+# ---------------------------------------------------------------------------
+
+@explainer
+def missing_field_raises_raw_exception(case, outcome, atoms):
+    """A mutation that names a field which does not exist (at that point) is
+    lowered (mutate()) before it is simulated: DeleteField / RenameField hit
+    'NoneType' object has no attribute 'field_type' and ChangeField raises
+    FieldDoesNotExist, so the command ends in a traceback instead of an
+    evolution error.  Nothing is executed and the database is untouched."""
+    kind = (case.get('perturb') or {}).get('kind')
+    if kind not in ('duplicate', 'swap', 'rename_field_arg', 'retarget_model', 'drop',
+                    'rename_model_arg'):
+        return atoms
+    return [a for a in atoms if not (a[0] == 'rejected_without_command_error' and
+                                     a[1] in ('AttributeError', 'FieldDoesNotExist'))]
+
+
+@explainer
+def dependency_on_evolution_without_effect(case, outcome, atoms):
+    """Same root cause as F-C04-6: only tasks that require evolution put nodes
+    into the dependency graph.  When another app's evolution depends on an
+    evolution whose mutations are all dropped/filtered out (so its task needs no
+    evolution), graph finalisation dies with an AssertionError instead of the
+    command reporting an evolution error."""
+    h = case.get('history') or {}
+    if len({s_['app'] for s_ in h.get('steps', []) if s_['type'] == 'evolve'}) < 2:
+        return atoms
+    return [a for a in atoms if not (a[0] == 'rejected_without_command_error' and
+                                     a[1] == 'AssertionError' and 'graph.py' in str(a[2]))]
